@@ -8,7 +8,9 @@ def grid_prop(cases_q, cases_t, size=200, **kw):
                           "harness reference models (value dictionary, moments, maps, 1-D hierarchy) are correct; cross-checked at start-up where stated in DESIGN.md"])
     d.update(kw); return d
 
+FAMS = {"fam:global": 0.08, "fam:sequence": 0.08, "fam:localp": 0.08, "fam:wavelet": 0.08, "fam:fourier": 0.06}
 PROPS = {
+    "C01": grid_prop(30000, 1200000, floors=dict(FAMS, **{"hist:construction": 0.05, "hist:refined": 0.2, "lp:d>=3": 0.01, "wave:o3": 0.02})),
     "C06": grid_prop(40000, 1500000,
                      floors={"fam:global": 0.08, "fam:sequence": 0.08, "fam:localp": 0.08, "fam:wavelet": 0.08, "fam:fourier": 0.08,
                              "fmt:ascii": 0.35, "sec:pending": 0.04, "sec:construction": 0.04, "sec:transform": 0.04, "sec:limits": 0.04}),
@@ -21,6 +23,10 @@ NOT_APPLICABLE = {}
 
 _TB = "Trusted base: the harness (decoder, reference models, oracles) and the sanitizer runtimes; generation is random, so absence of violations is evidence for the explored distribution only (reported in the evidence file)."
 META = {
+    "C01": dict(technique="property-based testing (rapidcheck, structure-aware byte decoder): stateful histories against a coordinate->value reference dictionary, nodal round-trip oracle, ASan/UBSan",
+                text="Random grids (nested rules of all five families) are driven through generated load/refine/update/merge/construction histories; after every step that changes loaded data evaluate, evaluateBatch and evaluateFast "
+                     "must return, at every loaded point, the value the harness supplied for that coordinate, within a data-derived rounding tolerance. Local polynomial grids are asserted when a coordinate-based hierarchy model confirms parent-completeness. Exploration.",
+                note=_TB),
     "C06": dict(technique="property-based testing (rapidcheck over a structure-aware byte decoder) with round-trip, byte-identity, cross-format and continuation oracles under ASan/UBSan",
                 text="Random grid specifications and operation histories (all five families, transforms, limits, pending refinement, active construction, custom rules, zero outputs, empty grid) are written and read through all four routes; "
                      "the restored grid must have a bitwise identical observable digest, re-write to identical bytes, agree across formats, and behave identically under a generated continuation. Exploration, not proof.",
